@@ -1,2 +1,136 @@
-From Burrow Require Import Int64 Wire WireEnc.
-Example placeholder_C06 : True. Proof. exact I. Qed.
+(* C06 - Offsets-topic decoding never crashes or balloons on any bytes.
+   Statements only; proofs are in WireProofs.v and WireRoundtripProofs.v.  Model: Wire.v (process_message = the code in
+   /repo after the repairs eb5a1a8 and 08882db), reference encoders: WireEnc.v.  The model is tied to
+   core/internal/consumer/kafka_client.go by the probe of checks/c06.py on every run (hostile byte strings through the
+   real processConsumerOffsetsMessage in a child process, and through the extracted model). *)
+From Coq Require Import ZArith List Bool.
+From Burrow Require Import Int64 Wire WireEnc WireProofs WireRoundtripProofs.
+Import ListNotations.
+Open Scope Z_scope.
+
+(* For every key and value (any lists of integers, in particular every byte string of every length), every allow / deny
+   decision and every message offset, processing finishes: no Go panic (makeslice: len out of range), and no loop that
+   outruns its input (the model's fuel, which is the number of bytes left plus one, is never exhausted). *)
+Theorem C06_process_never_crashes :
+  forall (accept : list Z -> bool) (key value : list Z) (o : Z),
+    exists rs al, process_message accept key value o = Done rs al.
+Proof. exact process_never_crashes. Qed.
+Print Assumptions C06_process_never_crashes.
+
+(* The sizes handed to make on the way (string of n bytes: n; slice of n partition ids: 4n; map size hint n: 48n) add up
+   to at most the key length plus nine times the value length: every allocation is paid for by bytes that are present.
+   No number in the message alone decides an allocation. *)
+Theorem C06_process_alloc_bounded :
+  forall (accept : list Z -> bool) (key value : list Z) (o : Z) rs al,
+    process_message accept key value o = Done rs al ->
+    0 <= sumz al <= blen key + 9 * blen value.
+Proof. exact process_alloc_bounded. Qed.
+Print Assumptions C06_process_alloc_bounded.
+
+(* ... and for an offset commit (key version 0 or 1) to at most the message size. *)
+Theorem C06_commit_alloc_bounded :
+  forall (accept : list Z -> bool) (key value : list Z) (o : Z) rs al,
+    is_commit_key key ->
+    process_message accept key value o = Done rs al ->
+    0 <= sumz al <= blen key + blen value.
+Proof. exact commit_alloc_bounded. Qed.
+Print Assumptions C06_commit_alloc_bounded.
+
+(* An offset-commit message produces at most one request, and nothing but a consumer-offset update. *)
+Theorem C06_commit_at_most_one :
+  forall (accept : list Z -> bool) key value o rs al,
+    is_commit_key key ->
+    process_message accept key value o = Done rs al ->
+    (length rs <= 1)%nat /\ Forall is_offset_update rs.
+Proof. exact commit_at_most_one. Qed.
+Print Assumptions C06_commit_at_most_one.
+
+(* If an offset-commit message (key and value any byte strings) produces a request r, then the key begins with a complete
+   well-formed offset key and the value begins with every field Burrow reads of a well-formed value of version 0, 1 or 3
+   (enc_offset_value_read: all of enc_offset_value but the v1 expire timestamp, which Burrow does not read); every string
+   is completely present with a possible length (str_ok: null or 0..32767 bytes), every integer completely present; the
+   reader's lists accept the group; and r carries exactly those fields and the message's own offset. *)
+Theorem C06_commit_update_wellformed :
+  forall (accept : list Z -> bool) key value o rs al r,
+    bytes key -> bytes value -> is_commit_key key ->
+    process_message accept key value o = Done rs al -> In r rs ->
+    exists kv g t p vv v restk restv,
+      (kv = 0 \/ kv = 1) /\ (vv = 0 \/ vv = 1 \/ vv = 3) /\
+      str_ok g /\ str_ok t /\ in_i32 p /\ offset_value_ok v /\
+      key = enc_offset_key kv g t p ++ restk /\
+      value = enc_offset_value_read vv v ++ restv /\
+      accept (str_val g) = true /\
+      r = SetConsumerOffset (str_val g) (str_val t) p (ov_offset v) (ov_commit_ts v) o.
+Proof. exact commit_update_wellformed. Qed.
+Print Assumptions C06_commit_update_wellformed.
+
+(* The property's last sentence: an offset commit in which any field Burrow reads is cut short or carries an impossible
+   length - i.e. whose key and value do not begin with a well-formed key and the read fields of a well-formed value -
+   is skipped without producing a storage update. *)
+Theorem C06_commit_malformed_skipped :
+  forall (accept : list Z -> bool) key value o rs al,
+    bytes key -> bytes value -> is_commit_key key ->
+    ~ commit_wellformed accept key value ->
+    process_message accept key value o = Done rs al -> rs = [].
+Proof. exact commit_malformed_skipped. Qed.
+Print Assumptions C06_commit_malformed_skipped.
+
+(* enc_offset_value_read is enc_offset_value without its last optional field *)
+Theorem C06_read_fields_are_a_prefix :
+  forall vv v, enc_offset_value vv v = enc_offset_value_read vv v ++ (if vv =? 1 then enc_i64 (ov_expire_ts v) else []).
+Proof. exact enc_offset_value_split. Qed.
+Print Assumptions C06_read_fields_are_a_prefix.
+
+(* The code before the repair eb5a1a8 (finding F1), on the same model with the bounds switched off: a string length below
+   -1 panicked in make, and a topic count read from the wire was an allocation size.  Kept as documentation. *)
+Theorem C06_process_crash_unrepaired_refuted :
+  exists key value, process_message_unrepaired (fun _ => true) key value 0 = Crash MakeSliceLen.
+Proof. exact process_crash_unrepaired_refuted. Qed.
+Print Assumptions C06_process_crash_unrepaired_refuted.
+
+Theorem C06_process_alloc_unrepaired_refuted :
+  exists key value rs al,
+    process_message_unrepaired (fun _ => true) key value 0 = Done rs al /\
+    sumz al > 1000000 * (blen key + blen value).
+Proof. exact process_alloc_unrepaired_refuted. Qed.
+Print Assumptions C06_process_alloc_unrepaired_refuted.
+
+(* ---- non-vacuity ---- *)
+
+(* the witnesses of F1 on the repaired model: skipped, nothing allocated beyond the message *)
+Example C06_ex_negative_length_skipped :
+  process_message (fun _ => true) [0; 0; 255; 254] [] 0 = Done [] [].
+Proof. vm_compute. reflexivity. Qed.
+
+Example C06_ex_huge_topic_count_bounded :
+  process_message (fun _ => true) [0; 2; 0; 1; 103]
+    ([0; 0; 0; 8; 99; 111; 110; 115; 117; 109; 101; 114; 0; 0; 0; 0; 255; 255; 255; 255; 0; 0; 0; 1]
+     ++ [255; 255; 255; 255; 255; 255; 0; 0; 0; 0; 0; 0; 0; 0; 0; 0; 0; 6; 0; 0; 127; 255; 255; 255]) 0
+  = Done [] [1; 8; 0].
+Proof. vm_compute. reflexivity. Qed.
+
+(* the unit test's commit is a commit key, consists of bytes, is well-formed and yields its update ... *)
+Example C06_ex_commit_key : is_commit_key lit_okey1.
+Proof. exists 1, (skipn 2 lit_okey1). split; [vm_compute; reflexivity | right; reflexivity]. Qed.
+
+Example C06_ex_bytes : bytes lit_okey1 /\ bytes lit_oval0.
+Proof. split; repeat constructor; unfold is_byte; cbn; try discriminate; reflexivity. Qed.
+
+Example C06_ex_wellformed : commit_wellformed (fun _ => true) lit_okey1 lit_oval0.
+Proof. exact commit_wellformed_example. Qed.
+
+Example C06_ex_update :
+  process_message (fun _ => true) lit_okey1 lit_oval0 7
+  = Done [SetConsumerOffset b_testgroup b_testtopic 11 8372 1637 7] [9; 9; 8].
+Proof. vm_compute. reflexivity. Qed.
+
+(* ... one byte short, or with an impossible metadata length, it yields nothing *)
+Example C06_ex_truncated_skipped :
+  process_message (fun _ => true) lit_okey1 (removelast lit_oval0) 7 = Done [] [9; 9; 8].
+Proof. exact commit_truncated_example. Qed.
+
+Example C06_ex_impossible_length_skipped :
+  process_message (fun _ => true) lit_okey1
+    [0; 0; 0; 0; 0; 0; 0; 0; 32; 180; 255; 248; 116; 101; 115; 116; 100; 97; 116; 97; 0; 0; 0; 0; 0; 0; 6; 101] 7
+  = Done [] [9; 9].
+Proof. vm_compute. reflexivity. Qed.
